@@ -61,13 +61,14 @@ pub fn dec(s: &str) -> Option<String> {
 
 /// Collects the transcript and the input-distribution statistics of a suite run.
 pub struct Sink {
+    pub failures: Vec<String>,
     pub lines: Vec<(String, String)>,
     pub stats: BTreeMap<String, u64>,
 }
 
 impl Sink {
     pub fn new() -> Self {
-        Sink { lines: Vec::new(), stats: BTreeMap::new() }
+        Sink { failures: Vec::new(), lines: Vec::new(), stats: BTreeMap::new() }
     }
     pub fn emit(&mut self, req: String, resp: String) {
         self.lines.push((req, resp));
@@ -78,6 +79,16 @@ impl Sink {
     pub fn stat_n(&mut self, key: &str, n: u64) {
         *self.stats.entry(key.to_string()).or_insert(0) += n;
     }
+    /// Oracle failure of property `pid` on the implementation.
+    pub fn fail(&mut self, pid: &str, signature: &str, what: &str, history: &[String]) {
+        let esc = |s: &str| s.replace('\\', "\\\\").replace('"', "\\\"").replace('\n', "\\n").replace('\t', "\\t").replace('\r', "\\r");
+        let hist: Vec<String> = history.iter().map(|h| format!("\"{}\"", esc(h))).collect();
+        self.failures.push(format!(
+            "F\t{}\t{{\"signature\": \"{}\", \"what\": \"{}\", \"replay\": {{\"history\": [{}]}}}}",
+            pid, esc(signature), esc(what), hist.join(", ")
+        ));
+        self.stat(&format!("fail.{}", signature));
+    }
     pub fn print(&self) {
         let mut out = String::new();
         for (req, resp) in &self.lines {
@@ -85,6 +96,10 @@ impl Sink {
             out.push_str(req);
             out.push('\t');
             out.push_str(resp);
+            out.push('\n');
+        }
+        for f in &self.failures {
+            out.push_str(f);
             out.push('\n');
         }
         for (k, v) in &self.stats {
